@@ -161,7 +161,8 @@ def cases_invalid(tier):
 # translator-rejected payloads -> single -32700, nothing runs
 
 # descriptors the library legitimately accepts (extra list members are ignored) are not "rejected"
-ACCEPTED = (["decimal.Decimal", ["1.5"]], ["mc.ref.beans.Plain", []], ["mc.ref.beans.Plain", {}], ["decimal.Decimal", ["1.5"], "extra"])
+ACCEPTED = (["decimal.Decimal", ["1.5"]], ["mc.ref.beans.Plain", []], ["mc.ref.beans.Plain", {}], ["decimal.Decimal", ["1.5"], "extra"],
+            ["builtins.int", ["f" * 5000, 16]], ["builtins.int", ["7"]])
 REJECTED = [d for d in c02.DESCRIPTORS if d not in ACCEPTED]
 
 
